@@ -32,8 +32,9 @@ def run_demo(demo, wt):
     env = dict(os.environ, PYTHONPATH="%s:/tmp/te_shim" % wt, CODE_DATA_PATH="%s:/tmp/te_shim" % wt, PYTHONDONTWRITEBYTECODE="1")
     head = open(demo).read(3000)
     if "CODE_DATA_PATH" in head or "subprocess" in head and "spawn" in head:
-        rc, o = sh("/venv/bin/python %s" % demo, cwd="/tmp", env=env, timeout=600)
-        out["driver"] = rc
+        if "producer" not in head:
+            rc, o = sh("/venv/bin/python %s" % demo, cwd="/tmp", env=env, timeout=600)
+            out["driver"] = rc
         if "as producer" in head or "producer" in head:
             for v, py in PY.items():
                 rc, o = sh("%s %s" % (py, demo), cwd="/tmp", env=env, timeout=900)
